@@ -64,8 +64,13 @@ def _to_copy(op, t, dtype=None, **kwargs):
     # For data, ignore dtype and use the inner type instead
     out_data = op(t._data, dtype=t._data.dtype, **kwargs)
     # Apply the new dtype on the scale only
+    if t._scale.ndim != t._data.ndim:
+        # A memory format requested for the data does not apply to a scalar scale
+        kwargs = {k: v for k, v in kwargs.items() if k != "memory_format"}
     out_scale = op(t._scale, dtype=dtype, **kwargs)
-    return QBytesTensor(t.qtype, t.axis, t.size(), t.stride(), out_data, out_scale)
+    # The copy may have another memory format than its source: report the strides of the copied data
+    out_stride = out_data.stride() if out_data.shape == t.shape else t.stride()
+    return QBytesTensor(t.qtype, t.axis, t.size(), out_stride, out_data, out_scale)
 
 
 @register_qbytestensor_op([torch.ops.aten.detach])
@@ -120,7 +125,9 @@ def clone(op, t, memory_format=torch.preserve_format):
     out_data = op(t._data, memory_format=memory_format)
     out_stride = out_data.stride()
     out_data = out_data.reshape(data_shape)
-    out_scale = op(t._scale, memory_format=memory_format)
+    # A memory format requested for the data does not apply to a scalar scale
+    scale_format = memory_format if t._scale.ndim == t._data.ndim else torch.preserve_format
+    out_scale = op(t._scale, memory_format=scale_format)
     return QBytesTensor(t.qtype, t.axis, t.size(), out_stride, out_data, out_scale)
 
 
